@@ -70,3 +70,70 @@ package auth
 //@                && (url == "" ==> callArg(sp, 1, 0) == "scope=%q" && calls(sp) == 1)
 //@                && (url != "" && nscopes > 0 ==> callArg(sp, 2, 0) == "scope=%q" && calls(sp) == 2)
 //@                && (nscopes == 0 ==> calls(sp) == 1)
+
+// ---------------------------------------------------------------------------------------------
+// C15: authorization-code flow checks (state, RFC 9207 issuer, pre-registered issuer binding, token installation)
+// ---------------------------------------------------------------------------------------------
+
+// validateIssuerResponse is exactly the RFC 9207 rule.
+//@ func validateIssuerResponse [C15]
+//@   ensures @rfc9207 result == nil <==> ((issParameterSupported && iss != "" && iss == expectedIssuer) || (!issParameterSupported && iss == ""))
+
+// getAuthorizationCode: a result is handed on only if the state it carries is the one generated for this attempt.
+//@ func (*AuthorizationCodeHandler).getAuthorizationCode [C15]
+//@   track rand.Text as newState
+//@   track h.config.AuthorizationCodeFetcher as fetcher
+//@   callee h.config.AuthorizationCodeFetcher: modifies *
+//@   snapshot fetched after call h.config.AuthorizationCodeFetcher
+//@   requires h != nil && cfg != nil
+//@   modifies *
+//@   ensures @fresh-state-per-attempt calls(newState) == 1
+//@   ensures @state-must-match result.1 == nil ==> result.0 != nil && calls(fetcher) == 1 && callResult(fetcher, 1, 1) == nil && result.0.AuthorizationResult == callResult(fetcher, 1, 0) && at(fetched, callResult(fetcher, 1, 0).State) == callResult(newState, 1, 0)
+//@   ensures @failure-yields-no-result result.1 != nil ==> result.0 == nil
+
+// handleRegistration: credentials pre-registered for a named issuer are never used with another issuer.
+//@ func (*AuthorizationCodeHandler).handleRegistration [C15]
+//@   track authutil.IssuersEqual as sameIssuer
+//@   track oauthex.RegisterClient as register
+//@   requires h != nil && asm != nil
+//@   modifies *
+//@   ensures @preregistered-credentials-bound-to-their-issuer result.1 == nil && result.0.registrationType == registrationTypePreregistered && old(h.config.PreregisteredClient.Issuer) != "" ==> calls(sameIssuer) == 1 && callResult(sameIssuer, 1, 0) && callArg(sameIssuer, 1, 0) == old(h.config.PreregisteredClient.Issuer) && callArg(sameIssuer, 1, 1) == old(asm.Issuer)
+//@   ensures @preregistered-identity-is-the-configured-one result.1 == nil && result.0.registrationType == registrationTypePreregistered ==> old(h.config.PreregisteredClient) != nil && result.0.clientID == old(h.config.PreregisteredClient.ClientID)
+//@   ensures @mismatching-issuer-registers-nothing old(h.config.PreregisteredClient) != nil && !(old(h.config.ClientIDMetadataDocumentConfig) != nil && old(asm.ClientIDMetadataDocumentSupported)) && calls(sameIssuer) == 1 && !callResult(sameIssuer, 1, 0) ==> result.1 != nil && result.0 == nil && calls(register) == 0
+//@   ensures @dynamic-registration-goes-to-the-advertised-endpoint calls(register) <= 1 && (calls(register) == 1 ==> callArg(register, 1, 1) == old(asm.RegistrationEndpoint) && old(asm.RegistrationEndpoint) != "")
+
+// exchangeAuthorizationCode: a token source is installed only after a successful exchange (and a successfully built
+// token source); on failure what the transport presents is unchanged.
+//@ func (*AuthorizationCodeHandler).exchangeAuthorizationCode [C15]
+//@   track Exchange as exchange
+//@   callee h.config.NewTokenSource: modifies extern
+//@   requires h != nil && cfg != nil && authResult != nil && authResult.AuthorizationResult != nil
+//@   modifies *
+//@   ensures @no-token-installed-on-failure result != nil ==> h.tokenSource == old(h.tokenSource)
+//@   ensures @exchange-uses-the-received-code calls(exchange) == 1 && callArg(exchange, 1, 2) == old(authResult.Code)
+
+// Authorize: the code is exchanged only after the state check (inside getAuthorizationCode) and the RFC 9207 issuer
+// check both passed, with the issuer and the iss-support flag taken from the authorization server metadata in use;
+// after any failed step nothing is exchanged.
+//@ func (*AuthorizationCodeHandler).Authorize [C15]
+//@   track getProtectedResourceMetadata as getPRM
+//@   track GetAuthServerMetadata as getASM
+//@   track handleRegistration as registration
+//@   track getAuthorizationCode as getCode
+//@   track validateIssuerResponse as issCheck
+//@   track exchangeAuthorizationCode as exchange
+//@   track updateGrantedScopes as grant
+//@   snapshot gotCode after call getAuthorizationCode
+//@   requires h != nil && req != nil && resp != nil && req.URL != nil
+//@   modifies *
+//@   ensures @exchange-only-after-every-check calls(exchange) <= 1 && (calls(exchange) == 1 ==> calls(getPRM) == 1 && callResult(getPRM, 1, 1) == nil && calls(getASM) == 1 && callResult(getASM, 1, 1) == nil && calls(registration) == 1 && callResult(registration, 1, 1) == nil && calls(getCode) == 1 && callResult(getCode, 1, 1) == nil && calls(issCheck) == 1 && callResult(issCheck, 1, 0) == nil)
+//@   ensures @issuer-check-uses-the-response-and-the-metadata calls(issCheck) == 1 ==> callArg(issCheck, 1, 0) == at(gotCode, callResult(getCode, 1, 0).Iss)
+//@   ensures @exchanged-code-is-the-checked-one calls(exchange) == 1 ==> callArg(exchange, 1, 3) == callResult(getCode, 1, 0)
+//@   ensures @scopes-granted-only-after-exchange calls(grant) <= 1 && (calls(grant) == 1 ==> calls(exchange) == 1 && callResult(exchange, 1, 0) == nil)
+//@   ensures @failed-exchange-is-reported calls(exchange) == 1 && callResult(exchange, 1, 0) != nil ==> result != nil
+
+// Helpers that only read their arguments (frame checked).
+//@ func selectTokenAuthMethod [C15]
+//@   pure
+//@ func authMethodToStyle [C15]
+//@   pure
